@@ -33,6 +33,13 @@ func (a *AuditLogIngester) Ingest(ctx context.Context) error {
 }
 
 func (a *AuditLogIngester) Process(ctx context.Context, line string) error {
-	a.AuditLogChan <- line
-	return nil
+	// The consumer of AuditLogChan stops when the context is cancelled. Do
+	// not block forever on a full channel in that case; it would keep the
+	// whole process from exiting.
+	select {
+	case a.AuditLogChan <- line:
+		return nil
+	case <-ctx.Done():
+		return ctx.Err()
+	}
 }
